@@ -194,12 +194,6 @@ func hasMethod(w *World, t types.Type, name string) bool {
 
 const tokCur = 1
 
-func bump(m map[string]int8, k string) {
-	if m[k] < 2 {
-		m[k]++
-	}
-}
-
 func (m *motionModel) onObjCall(a *tsRun, s *tsState, f *frame, in ssa.CallInstruction, fi int, method string) (bool, bool) {
 	cc := in.Common()
 	switch fi {
@@ -272,6 +266,9 @@ func (m *motionModel) onObjCall(a *tsRun, s *tsState, f *frame, in ssa.CallInstr
 			}
 		case "GetHistory":
 			a.record(s, "ring:GetHistory", -1, -1, "", in)
+			if s.sinks[roleMotion] == 1 && s.ghosts["wcur:motion"] == 0 && s.ghosts["wother:motion"] == 0 {
+				s.ghosts["histAfterStart"] = 1
+			}
 		default:
 			a.record(s, "ring:"+method, -1, -1, "", in)
 		}
